@@ -54,6 +54,8 @@ def make_inputs(tier, seed):
     for name in fmt_real.NAMES:
         yield {"real": name}
     quick = tier == "quick"
+    for sp in G.sep_error_specials():
+        yield {"spec": sp}
     for i, c in enumerate(G.ctx_field_product()):
         if quick and (i + seed) % 6:
             continue
